@@ -574,6 +574,10 @@ class Analyzer:
                 return UNKNOWN
             if base.kind == "cls" and e.attr in ("create",):
                 return AVal("clscreate", base.obj)
+            if base.kind == "fresh" and e.attr == "symbol_table":
+                # a created/copied scoping node owns a new symbol table with new symbols
+                # (ScopingNode._refine_copy deep-copies the table): fresh as well
+                return FRESH
             return UNKNOWN
         if isinstance(e, ast.Call):
             f = self.aval(ctx, e.func)
